@@ -1024,6 +1024,149 @@ void World::corrupt_blob(const Step& s, int ti)
         probes.hit("corruption_left_in_place");
 }
 
+
+// C05, systematic part: walk a whole grid of damaged variants of one stored blob
+// (every truncation length, a byte damaged at every offset, every count field at
+// every boundary value) instead of sampling single points.
+void World::corrupt_grid(const Step& s, int ti)
+{
+    auto arg = [&](size_t i) { return i < s.a.size() ? s.a[i] : 0; };
+    int64_t id = tracks[ti].id;
+    Payloads cur = read_payloads(*this, id);
+    if (!cur.found || !cur.err.empty())
+        return;
+    const int nk = v2 ? 5 : 6;
+    int kind = (int)((uint64_t)arg(1) % (uint64_t)nk);
+    const char* col = kBlobCols1[kind];
+    const Bytes* raws[] = {&cur.rtd, &cur.rov, &cur.rbd, &cur.rqc, &cur.rlp, &cur.rhr};
+    const Bytes* pays[] = {&cur.td, &cur.ov, &cur.bd, &cur.qc, &cur.lp, &cur.hr};
+    const Bytes pristine = *raws[kind];
+    const Bytes payload = *pays[kind];
+    const bool compressed = kind != 4;
+    auto rewrap = [&](const Bytes& p) { return compressed ? ref::zwrap(p, 6) : p; };
+    unsigned mode = (unsigned)((uint64_t)arg(2) % 5);
+    const size_t cap = 1500;
+    std::vector<Bytes> variants;
+    auto stride = [&](size_t n) { return n <= cap ? (size_t)1 : (n + cap - 1) / cap; };
+    switch (mode)
+    {
+        case 0:  // every truncation of the stored cell
+            for (size_t L = 0, st = stride(pristine.size() + 1); L <= pristine.size(); L += st)
+                variants.emplace_back(pristine.begin(), pristine.begin() + (long)L);
+            break;
+        case 1:  // every truncation of the payload inside an intact frame
+            for (size_t L = 0, st = stride(payload.size() + 1); L <= payload.size(); L += st)
+                variants.push_back(rewrap(Bytes(payload.begin(), payload.begin() + (long)L)));
+            break;
+        case 2:  // one byte damaged at every offset of the stored cell
+            for (size_t i = 0, st = stride(pristine.size() * 2); i < pristine.size(); i += st)
+                for (uint8_t x : {(uint8_t)0xFF, (uint8_t)0x01})
+                {
+                    Bytes v = pristine;
+                    v[i] ^= x;
+                    variants.push_back(std::move(v));
+                }
+            break;
+        case 3:  // one byte damaged at every offset of the payload, re-deflated
+            for (size_t i = 0, st = stride(payload.size() * 2); i < payload.size(); i += st)
+                for (uint8_t x : {(uint8_t)0xFF, (uint8_t)0x80})
+                {
+                    Bytes v = payload;
+                    v[i] ^= x;
+                    variants.push_back(rewrap(v));
+                }
+            break;
+        default:  // every count / length field at every boundary value
+        {
+            auto cf = count_fields(kind, payload);
+            for (auto& f : cf)
+                for (int64_t bv : kCounts)
+                {
+                    int64_t v = bv == -1000 ? f.fit : (bv == -1001 ? f.fit + 1 : bv);
+                    Bytes pl = payload;
+                    if (f.width == 1)
+                        pl[f.off] = (uint8_t)v;
+                    else if (f.le)
+                        put_le64(pl, f.off, (uint64_t)v);
+                    else
+                        put_be64(pl, f.off, (uint64_t)v);
+                    variants.push_back(rewrap(pl));
+                    if (kind == 1 || kind == 5)
+                    {
+                        put_be64(pl, 0, (uint64_t)v);
+                        put_be64(pl, 8, (uint64_t)v);
+                        variants.push_back(rewrap(pl));
+                    }
+                }
+            // the 4-byte prefix too
+            if (compressed && pristine.size() >= 4)
+                for (uint32_t pv : {0u, 1u, (uint32_t)payload.size() + 1, (uint32_t)payload.size() - 1, 0x80000000u, 0x7fffffffu, 0xffffffffu})
+                {
+                    Bytes v = pristine;
+                    v[0] = (uint8_t)(pv >> 24);
+                    v[1] = (uint8_t)(pv >> 16);
+                    v[2] = (uint8_t)(pv >> 8);
+                    v[3] = (uint8_t)pv;
+                    variants.push_back(std::move(v));
+                }
+            break;
+        }
+    }
+    note("f_grid track " + std::to_string(id) + " " + col + " mode " + std::to_string(mode) + ": " + std::to_string(variants.size()) + " variants");
+    log.str(std::string("f_grid:") + col + ":" + std::to_string(mode));
+    gate_log.str(std::string("f_grid:") + col + ":" + std::to_string(mode));
+    HDb d;
+    if (!d.open(db_path(*this, true), false))
+        return;
+    std::string table = v2 ? "Track" : "PerformanceData";
+    const std::string upd = "UPDATE " + table + " SET " + col + " = ? WHERE id = ?";
+    uint64_t threw = 0, ok = 0;
+    auto rd = [&](auto&& fn) {
+        Outcome o = call(FaultSpec{}, fn);
+        (o.threw ? threw : ok)++;
+    };
+    auto& t = *tracks[ti].h;
+    size_t n = 0;
+    for (auto& cell : variants)
+    {
+        ++n;
+        if (v2)
+        {
+            std::vector<std::byte> bytes(cell.size());
+            if (!cell.empty())
+                memcpy(bytes.data(), cell.data(), cell.size());
+            switch (kind)
+            {
+                case 0: rd([&] { (void)v2::track_data_blob::from_blob(bytes); }); break;
+                case 1: rd([&] { (void)v2::overview_waveform_data_blob::from_blob(bytes); }); break;
+                case 2: rd([&] { (void)v2::beat_data_blob::from_blob(bytes); }); break;
+                case 3: rd([&] { (void)v2::quick_cues_blob::from_blob(bytes); }); break;
+                default: rd([&] { (void)v2::loops_blob::from_blob(bytes); }); break;
+            }
+        }
+        // through the store: always on 1.x (the decoders are internal), every 6th variant on 2.x
+        if (!v2 || n % 6 == 0)
+        {
+            if (!d.run(upd, {HDb::Bind::Blob(cell), HDb::Bind::Int(id)}))
+                continue;
+            rd([&] { (void)t.snapshot(); });
+            if (n % 24 == 0)
+                (void)observe_track(t);
+        }
+        if (stop)
+            break;
+    }
+    d.run(upd, {HDb::Bind::Blob(pristine), HDb::Bind::Int(id)});
+    probes.hit("corruptions", variants.size());
+    probes.hit("grid_walks");
+    probes.hit("grid_mode_" + std::to_string(mode));
+    op_counts[std::string("f_grid:") + col]++;
+    if (threw)
+        probes.hit("decoder_threw_on_corrupt", threw);
+    if (ok)
+        probes.hit("decoder_accepted_corrupt", ok);
+}
+
 void World::corrupt_pages(const Step& s)
 {
     // raw page-level bit flips bypass SQLite, so they are applied while the library is closed
@@ -1418,6 +1561,12 @@ bool World::exec_foreign_op(const Step& s)
     if (s.op == "f_corrupt")
     {
         corrupt_blob(s, ti);
+        finish(s.op);
+        return true;
+    }
+    if (s.op == "f_grid")
+    {
+        corrupt_grid(s, ti);
         finish(s.op);
         return true;
     }
